@@ -336,7 +336,7 @@ def run(eng, R):
         body = _txt(ast.Module(body=lp.body, type_ignores=[]))
         IDX = "[self.parameter_names.index(_q) for _q in %s.parameter_names]" % fv
         bsrc = common.Src(body)
-        helper = bsrc.like("_ix = self._get_parameter_indices(%s)" % fv)
+        helper = bsrc.like("_ix = self._get_parameter_indices(%s)" % fv) or bsrc.like("_ix = " + IDX)   # through the helper, or the helper written out into a local
         ix = "_ix" if helper else IDX
         R.ob("U-res", "_update_singular_fits:indices", helper or bsrc.like(IDX), (us.file, lp.lineno), "sub-blocks must be selected by the member's own parameter indices")
         dct = [s for s in lp.body if isinstance(s, ast.Assign) and _txt(s.targets[0]) == "%s._loaded_result_dict" % fv and isinstance(s.value, ast.Call)]
